@@ -62,11 +62,13 @@ From VerifGen Require Import GenLifecycle.
 (* the repaired variant of the model ([repaired], used by the acceptor and the positive theorems) is the variant
    the source tree implements: the node / worker goroutines Kill the tomb before their deferred Done() (2f2ec4f),
    the arch-v2 force stop also stores intentionalStop (9382932), the cleanup's map delete is a compare-and-delete
-   in both engines (838f9f1) *)
+   in both engines (838f9f1), the Degraded write of a failed recovery is a compare-and-write under publishMu in both
+   engines (degradeIfCurrent) *)
 Theorem gen_repairs_in_place :
   gen_v1_sync_kill = f_sync_kill repaired /\\ gen_v2_sync_kill = true
   /\\ gen_v2_force_intent = f_force_intent repaired
-  /\\ gen_v1_compare_and_delete = true /\\ gen_v2_compare_and_delete = f_cad repaired.
+  /\\ gen_v1_compare_and_delete = true /\\ gen_v2_compare_and_delete = f_cad repaired
+  /\\ gen_v1_own_close = f_own_close repaired /\\ gen_v2_own_close = f_own_close repaired.
 Proof. vm_compute. repeat split; reflexivity. Qed.
 """,
     "gen_transient_recovers": """
